@@ -6,17 +6,44 @@ pub const CLOCK_HORIZON: u64 = 1 << 50;
 
 impl Sim {
     pub fn step(&mut self, op: &Op) -> Vec<Finding> {
-        let out = self.step_inner(op);
         // the virtual clock stays below a horizon (about 13 days) so that the model's own schedule arithmetic cannot
-        // overflow: RTO-relative advances grow the learned RTO, which grows the next advance, exponentially
-        self.now = self.now.min(CLOCK_HORIZON);
-        out
+        // overflow: RTO-relative advances grow the learned RTO, which grows the next advance, exponentially.  An
+        // operation that would move the clock beyond the horizon is skipped as a whole (the clock never goes back).
+        let before = self.now;
+        match op {
+            Op::Advance(_) | Op::AdvanceHalfRtos(_) => {
+                let out = self.step_inner(op);
+                if self.now > CLOCK_HORIZON {
+                    self.now = before;
+                }
+                out
+            }
+            Op::Timer(k) => {
+                let target = self.timer_target(k);
+                if target > CLOCK_HORIZON {
+                    return Vec::new();
+                }
+                self.step_inner(op)
+            }
+            _ => self.step_inner(op),
+        }
+    }
+
+    /// the instant a Timer operation would call on_timeout at
+    fn timer_target(&self, k: &TimerKind) -> u64 {
+        match (k, self.min_expiry()) {
+            (TimerKind::Exact, Some(e)) => self.now.max(e),
+            (TimerKind::Early(d), Some(e)) => self.now.max(e.saturating_sub((*d).max(1))),
+            (TimerKind::Late(d), Some(e)) => self.now.max(e.saturating_add(*d)),
+            (TimerKind::LateHalfRtos(m), Some(e)) => {
+                let rto = self.awaiting().iter().map(|i| &self.reqs[*i]).find(|r| r.expiry == e).map(|r| r.rto).unwrap_or(0);
+                self.now.max(e.saturating_add((*m as u64).saturating_mul(rto / 2)))
+            }
+            _ => self.now,
+        }
     }
 
     fn step_inner(&mut self, op: &Op) -> Vec<Finding> {
-        if self.now >= CLOCK_HORIZON && matches!(op, Op::Advance(_) | Op::AdvanceHalfRtos(_) | Op::Timer(_)) {
-            return Vec::new();
-        }
         match op {
             Op::Send { method, attrs, small_buf } => self.do_send(*method, attrs, *small_buf),
             Op::Indication { method, attrs } => self.do_indication(*method, attrs),
@@ -26,27 +53,11 @@ impl Sim {
             }
             Op::AdvanceHalfRtos(m) => {
                 let rto = self.reqs.last().map(|r| r.rto).unwrap_or(self.cfg.rto_us * 1000);
-                self.now = self.now.saturating_add(*m as u64 * (rto / 2));
+                self.now = self.now.saturating_add((*m as u64).saturating_mul(rto / 2));
                 Vec::new()
             }
             Op::Timer(k) => {
-                let e = self.min_expiry();
-                match (k, e) {
-                    (TimerKind::Exact, Some(e)) => self.now = self.now.max(e),
-                    (TimerKind::Early(d), Some(e)) => self.now = self.now.max(e.saturating_sub((*d).max(1))),
-                    (TimerKind::Late(d), Some(e)) => self.now = self.now.max(e.saturating_add(*d)),
-                    (TimerKind::LateHalfRtos(m), Some(e)) => {
-                        let rto = self
-                            .awaiting()
-                            .iter()
-                            .map(|i| &self.reqs[*i])
-                            .find(|r| r.expiry == e)
-                            .map(|r| r.rto)
-                            .unwrap_or(0);
-                        self.now = self.now.max(e.saturating_add(*m as u64 * (rto / 2)));
-                    }
-                    _ => {}
-                }
+                self.now = self.timer_target(k);
                 self.do_timer(false)
             }
             Op::Deliver(r) => {
@@ -1045,7 +1056,12 @@ impl Sim {
             }
             let late = if lates.is_empty() { 0 } else { lates[k % lates.len()] };
             k += 1;
-            self.now = self.now.max(fire.saturating_add(late));
+            let target = self.now.max(fire.saturating_add(late));
+            if target > CLOCK_HORIZON {
+                // beyond the model's horizon: the run ends here without a verdict on what is still pending
+                return out;
+            }
+            self.now = target;
             let f = self.do_timer(true);
             if !f.is_empty() {
                 return f;
